@@ -408,6 +408,13 @@ func (c *Cluster) QueueInternal(kind string, o Outcome) {
 	c.mu.Unlock()
 }
 
+// ClearInternal forgets hostile replies that were queued but not consumed.
+func (c *Cluster) ClearInternal() {
+	c.mu.Lock()
+	c.internal = nil
+	c.mu.Unlock()
+}
+
 func (c *Cluster) InternalPending() int {
 	c.mu.Lock()
 	defer c.mu.Unlock()
